@@ -427,6 +427,9 @@ class Index(IndexBase):
             else: # IndexHierarchy
                 # will be a generator of tuples; already updated caches
                 labels = labels.__iter__()
+        elif isinstance(labels, str):
+            # a single string is one label, not an iterable of characters
+            labels = (labels,)
         elif isinstance(labels, ContainerOperand):
             # it is a Series or similar
             array = labels.values # NOTE: should we take values or keys here?
